@@ -188,7 +188,12 @@ def cli_encode(run, wd, recs):
     for rec in recs:
         beh = rec['b']
         data = bytes(beh['msg'])
-        fm = formats_of(Decoder().process(data))
+        try:
+            fm = formats_of(Decoder().process(data))
+        except Exception as e:
+            run.traces += 1
+            run.violation(('render', 'exception', type(e).__name__, ''), 'decoding / wiring / rendering a well-formed message raised %r' % (e,), {'kind': 'behaviour', 'record': rec})
+            continue
         d = os.path.join(wd, 'cli%d' % n)
         os.makedirs(d)
         n += 1
@@ -271,6 +276,7 @@ def run(run):
                 # counted): what wiring keeps from one subset must not reach the next
                 ('open', cat['open'], dict(subset_counts=(2,), fmax=1 if not thorough else 2, seeds=((r + 2) % 5,), compressions=(False,))),
                 ('dnp', cat['dnp'], dict(subset_counts=(1, 2), fmax=2, seeds=((r + 3) % 5,))),
+                ('assoc2', cat['assoc2'], dict(subset_counts=(1, 2), fmax=2, seeds=((r + 4) % 5,), nested_assoc=True)),
                 ('rnd_plain', cat['rnd_plain'], dict(subset_counts=(1,), seeds=((r + 4) % 5,), compressions=(r % 2 == 1,))),
                 ('rnd_struct', cat['rnd_struct'], dict(subset_counts=(2,) if thorough else (1,), fmax=2, seeds=(r,))),
                 ('rnd_bitmap', cat['rnd_bitmap'], dict(subset_counts=(2,), fmax=2, seeds=((r + 1) % 5,), compressions=(False, True) if thorough else (False,)))]
